@@ -60,6 +60,8 @@ type Full struct {
 	OnEnv        func(ctx context.Context, kind int, env interface{}, s lime.Sender) error
 	Links        []*simnet.Link
 	CliReadLimit int64
+	// CliTransports holds the transport ConnectChannel dialled for client i.
+	CliTransports map[int]lime.Transport
 }
 
 // StartFull builds and starts the server. setup may register handlers on the builder; when
@@ -266,6 +268,10 @@ func (f *Full) ConnectChannel(ctx context.Context, c CliSpec, i int) (*lime.Clie
 	if err != nil {
 		return nil, nil, err
 	}
+	if f.CliTransports == nil {
+		f.CliTransports = map[int]lime.Transport{}
+	}
+	f.CliTransports[i] = t
 	ch := lime.NewClientChannel(t, c.Buf)
 	ses, err := ch.EstablishSession(ctx, compSelector, encSelector(c.Enc), clientIdentity(c, i), authenticatorFor(c.Auth), fmt.Sprintf("inst%d", i))
 	if err != nil {
